@@ -434,6 +434,8 @@ func (p *Plug) Execute(ctx context.Context, req any) (any, *plugins.Error) {
 		return nil, &plugins.Error{Message: "transient failure of " + path}
 	case WrongType:
 		return OtherResp{Bogus: path}, nil
+	case PermWrap:
+		return nil, &plugins.Error{Message: "permanent failure of " + path, Permanent: true, Wrapped: &plugins.Error{Message: "cause (not flagged permanent)"}}
 	case RespPerm:
 		return Resp{Path: path, N: n}, &plugins.Error{Message: "permanent failure with a partial result of " + path, Permanent: true}
 	case RespTrans:
